@@ -44,7 +44,7 @@ def sid_to_sid(sid: str | Sid) -> Sid:
 
     # resolving
     if string.count(":"):  # a uri
-        _type, string = string.split(":")
+        _type, string = string.split(":", 1)
         _type, fields = sid_resolver.sid_to_dict(string, _type)
     else:  # a simple string
         _type, fields = sid_resolver.sid_to_dict(string)  # The string might be empty
